@@ -8,6 +8,7 @@ package c03
 
 import (
 	"bytes"
+	"flag"
 	"fmt"
 	"testing"
 
@@ -28,6 +29,11 @@ import (
 
 // ---------------------------------------------------------------------------
 // oracle self-test
+
+func init() {
+	// a failing case is already small (fixed-size seeds); do not spend rapid's default 30 s per failing sub-test on shrinking
+	_ = flag.Set("rapid.shrinktime", "3s")
+}
 
 var acvpPath = vlib.Harness + "/zz_verif/c03/testdata/acvp_mlkem_subset.json.gz"
 
@@ -355,7 +361,7 @@ func TestC03KEM(t *testing.T) {
 	for _, im := range impls() {
 		im := im
 		t.Run(im.name, func(t *testing.T) {
-			vlib.Check(t, vlib.N(100, 350), func(t *rapid.T) { kemCase(t, im) })
+			vlib.Check(t, vlib.N(150, 400), func(t *rapid.T) { kemCase(t, im) })
 		})
 	}
 }
@@ -500,7 +506,7 @@ func TestC03PKE(t *testing.T) {
 	for _, im := range pkeImpls() {
 		im := im
 		t.Run(im.name, func(t *testing.T) {
-			vlib.Check(t, vlib.N(120, 400), func(t *rapid.T) { pkeCase(t, im) })
+			vlib.Check(t, vlib.N(150, 400), func(t *rapid.T) { pkeCase(t, im) })
 		})
 	}
 }
@@ -685,7 +691,7 @@ func TestC03Parse(t *testing.T) {
 	for _, im := range impls() {
 		im := im
 		t.Run(im.name, func(t *testing.T) {
-			vlib.Check(t, vlib.N(150, 600), func(t *rapid.T) { parseCase(t, im) })
+			vlib.Check(t, vlib.N(200, 600), func(t *rapid.T) { parseCase(t, im) })
 		})
 	}
 }
